@@ -90,19 +90,30 @@ func cmdCheck(args []string) {
 			jobs = spec.Quick
 		}
 	}
+	// development aids: VSYM_ONLY=<substring> runs only the matching instances; with it, or with
+	// VSYM_REPO (a scratch tree instead of /repo), the evidence goes to .work/ and not to evidence/
+	only := os.Getenv("VSYM_ONLY")
+	evidenceDir := filepath.Join(verifDir, "evidence")
+	if only != "" || os.Getenv("VSYM_REPO") != "" {
+		evidenceDir = filepath.Join(verifDir, ".work", "evidence-trial")
+	}
 	var insts []*jobInst
 	for _, j := range jobs {
 		if len(j.Cases) == 0 {
-			insts = append(insts, &jobInst{spec: j, cs: map[string]int64{}})
+			if only == "" || strings.Contains(j.Fn, only) {
+				insts = append(insts, &jobInst{spec: j, cs: map[string]int64{}})
+			}
 		}
 		for _, c := range j.Cases {
-			insts = append(insts, &jobInst{spec: j, cs: c})
+			if only == "" || strings.Contains(j.Fn+"@"+caseString(c), only) {
+				insts = append(insts, &jobInst{spec: j, cs: c})
+			}
 		}
 	}
 	work := filepath.Join(verifDir, ".work", fmt.Sprintf("%s-%d", id, os.Getpid()))
 	os.MkdirAll(work, 0o755)
 	defer os.RemoveAll(work)
-	os.MkdirAll(filepath.Join(verifDir, "evidence"), 0o755)
+	os.MkdirAll(evidenceDir, 0o755)
 	os.MkdirAll(filepath.Join(verifDir, "replays"), 0o755)
 
 	self, _ := os.Executable()
@@ -174,6 +185,14 @@ func cmdCheck(args []string) {
 			os.WriteFile(jf, jd, 0o644)
 			cmd := exec.Command(self, "exec", "-pkg", w.pkg, "-jobs", jf, "-known", filepath.Join(verifDir, "known_findings.json"))
 			cmd.Env = append(os.Environ(), "VERIF_DIR="+verifDir)
+			if os.Getenv("VSYM_XCHECK") == "" {
+				// every n-th decided query is re-decided by a solver of the other family
+				xe := "40"
+				if tier == "thorough" {
+					xe = "10"
+				}
+				cmd.Env = append(cmd.Env, "VSYM_XCHECK="+xe)
+			}
 			var ob []byte
 			done := make(chan error, 1)
 			go func() { var e error; ob, e = cmd.CombinedOutput(); done <- e }()
@@ -214,6 +233,7 @@ func cmdCheck(args []string) {
 	var samples []sampleT
 	cov := map[string]interface{}{}
 	var states, transitions, obligations, discharged, queries, replays int
+	var xdiff DiffResult
 	var solverSec float64
 	funcs := map[string]bool{}
 	stubs := map[string]int{}
@@ -235,6 +255,14 @@ func cmdCheck(args []string) {
 		discharged += r.Discharged
 		queries += r.Queries
 		solverSec += r.SolverSec
+		if r.Diff != nil {
+			xdiff.Solver = r.Diff.Solver
+			xdiff.Checked += r.Diff.Checked
+			xdiff.Agree += r.Diff.Agree
+			xdiff.Disagree += r.Diff.Disagree
+			xdiff.Unknown += r.Diff.Unknown
+			xdiff.Seconds += r.Diff.Seconds
+		}
 		for _, f := range r.Funcs {
 			funcs[f] = true
 		}
@@ -322,6 +350,8 @@ func cmdCheck(args []string) {
 	cov["bounds"] = spec.Bounds
 	cov["outside_claim"] = spec.Outside
 	cov["solver_queries"] = queries
+	cov["second_solver_cross_check"] = map[string]interface{}{"solvers": "z3 5.1 (z3-new) vs cvc5 1.0 (the query is re-decided by the family that did not answer it)", "queries_rechecked": xdiff.Checked,
+		"agree": xdiff.Agree, "disagree": xdiff.Disagree, "second_solver_unknown": xdiff.Unknown, "seconds": round2(xdiff.Seconds)}
 	cov["solver_seconds"] = round2(solverSec)
 	cov["harnesses"] = perHarness
 	cov["inconclusive"] = inconclusive
@@ -331,7 +361,7 @@ func cmdCheck(args []string) {
 	ev := map[string]interface{}{"property_id": id, "tier": tier, "seed": seed, "level": spec.Level, "coverage": cov,
 		"assumptions": spec.Assumptions, "wall_s": round2(time.Since(t0).Seconds()), "violations": violations}
 	ed, _ := json.MarshalIndent(ev, "", " ")
-	os.WriteFile(filepath.Join(verifDir, "evidence", id+".json"), ed, 0o644)
+	os.WriteFile(filepath.Join(evidenceDir, id+".json"), ed, 0o644)
 	fmt.Printf("%s %s: harness instances=%d paths=%d obligations=%d discharged=%d violations=%d known=%d inconclusive=%d solver=%.1fs wall=%.1fs -> exit %d\n",
 		id, tier, len(insts), states, obligations, discharged, violations, knownHits, len(inconclusive), solverSec, time.Since(t0).Seconds(), exit)
 	os.RemoveAll(work)
